@@ -120,6 +120,13 @@ def subject_octets(sigtype, subject):
         if kind != 'none' and not (kind == 'doc' and len(subject[1]) == 0):
             raise WireError('standalone / timestamp signature covers no subject')
         return b''
+    if sigtype == T_3RD:
+        # RFC 4880 5.2.4: over 0x88, a four-octet length and the body of the confirmed signature, its unhashed area emptied
+        if kind != 'sig':
+            raise WireError('third-party confirmation needs a signature packet')
+        t = parse_sig_body(subject[1])
+        b = t.hashed_prefix + b'\x00\x00' + t.left16 + bytes(subject[1])[t.mpi_off:]
+        return b'\x88' + len(b).to_bytes(4, 'big') + b
     if sigtype == T_CERT_REV and kind == 'key':
         # RFC 4880 5.2.1: 0x30 revokes a user id certification or a direct-key signature (0x1F); in the latter case it is
         # computed like the signature it revokes: over the key alone
